@@ -72,6 +72,7 @@ def run_one(sc):
     from onl.packet.tcp_generator import TCPPacketGenerator, TCPReno, TCPCubic, Flow
 
     den = sc.get("den", 8)
+    CAP = sc.get("cap", 1500)        # event budget of the scenario
     cubic = sc["cc"] == "cubic"
     env = Environment()
     ev = []
@@ -146,8 +147,8 @@ def run_one(sc):
     class Tap:
         def put(self, pkt):
             pid = pkt.packet_id
-            if len(ev) > 1500:
-                raise RuntimeError("runaway: more than 1500 events")     # e.g. a send loop that never blocks
+            if len(ev) > CAP:
+                raise RuntimeError("runaway: more than %d events" % CAP)     # e.g. a send loop that never blocks
             # a NEW segment: this sequence number appears for the first time, and it is the sender's next one -- whether
             # next_seq is advanced before or after the segment is handed on is the implementation's business, so the
             # record shows next_seq as it is at the moment of sending, i.e. the segment's own number
@@ -244,7 +245,7 @@ def run_one(sc):
         if not in_range():
             break          # the next values would leave the fixed-point range: the observation ends here
         steps += 1
-        if steps > 50000 or len(ev) > 1500:
+        if steps > 50000 or len(ev) > CAP:
             log(e="X", type="Runaway")
             ok = False
             break
